@@ -211,7 +211,10 @@ def run_unit(unit, ctx):
             cfg = {"common_subexpression_elimination": cse,
                    "max_dt_sec": rng.choice([0.1, 0.05, 0.0123456789, 1.0 / 3.0, 2.5e-7]),
                    "innovation_filtering": rng.choice([5.0, None, 2.718281828459045, 1e-7])}
-            eb = cppdrv.EkfBinary(defn, b, cfg, with_ekf=(which == "ekf"), compiler=compiler)
+            twice = (unit["i"] % 4 == 2)
+            eb = cppdrv.EkfBinary(defn, b, cfg, with_ekf=(which == "ekf"), compiler=compiler, render_twice=twice)
+            if twice:
+                R.stats.inc("second_renderings_compiled_and_run")
         except Exception as e:  # noqa: BLE001
             R.add([K.V(K.exc_key("cpp:generate", e), f"C++ generation raised for a valid definition ({which}): {K.exc_text(e)}",
                        traceback=K.tb_text(e), **w)])
